@@ -501,4 +501,32 @@ Section Kraus.
   Qed.
   Theorem skel_run b b' ops t t' : skel_eq t t' -> skel_eq (krun b ops t) (krun b' ops t').
   Proof. intro H. unfold krun. apply (skel_fold 8 b b' (skel_step b b' 8)). exact H. Qed.
+
+  (* ---- the interpreter does not look at the payload of OChan, and at the probability of OMeas only through `0 < p` ---- *)
+  Definition noisy_p (p : prob) : bool := match Qcompare 0 p with Lt => true | _ => false end.
+  Definition op_same (o o' : op nat) : Prop :=
+    match o, o' with
+    | OChan _, OChan _ => True
+    | OMeas q p s r, OMeas q' p' s' r' => q = q' /\ s = s' /\ r = r' /\ noisy_p p = noisy_p p'
+    | _, _ => o = o'
+    end.
+  Lemma kstep_same f b t o o' : op_same o o' -> kstep f b t o = kstep f b t o'.
+  Proof.
+    destruct o, o'; cbn [op_same]; intro H; try (rewrite H; reflexivity); try (injection H; intros; subst; reflexivity); try discriminate H; try contradiction.
+    all: try (destruct H as (-> & -> & -> & Hn); unfold noisy_p in Hn; destruct f; cbn [kstep]; rewrite Hn; reflexivity).
+    all: try (destruct f; reflexivity).
+  Qed.
+  Lemma krun_same b ops ops' : Forall2 op_same ops ops' -> forall t, krun b ops t = krun b ops' t.
+  Proof.
+    unfold krun. induction 1 as [|o o' l l' Ho Hl IH]; intro t; cbn [fold_left]; [reflexivity|]. rewrite (kstep_same 8 b t o o' Ho). apply IH.
+  Qed.
+  Lemma op_same_refl o : op_same o o.
+  Proof. destruct o; cbn [op_same]; auto. Qed.
+  Lemma Forall2_same_refl ops : Forall2 op_same ops ops.
+  Proof. induction ops; constructor; [apply op_same_refl | assumption]. Qed.
+  Lemma wf_op_same n o o' : op_same o o' -> wf_op n o = wf_op n o'.
+  Proof.
+    destruct o, o'; cbn [op_same]; intro H; try (rewrite H; reflexivity); try discriminate H; try contradiction; try reflexivity.
+    destruct H as (-> & _). reflexivity.
+  Qed.
 End Kraus.
